@@ -86,6 +86,19 @@ def replay_wrapper(inputs, obl):
             problems.append(f"KGFnWrapper(klong, fn) made while cb was {{x+1}}, cb redefined to {{x+2}} before the first call: call gave {w5(1)!r}, the current definition gives 3")
     except Exception as e:
         problems.append(f"wrapper without a name raised {type(e).__name__}: {e}")
+    # history: take the wrapper, delete the name, call (original runs), redefine the name, call again (the new definition runs)
+    try:
+        k6 = KlongInterpreter()
+        k6('hf::{x+1}')
+        w6 = k6['hf']
+        del k6['hf']
+        r_a = w6(1)
+        k6('hf::{x+100}')
+        r_b = w6(1)
+        if (r_a, r_b) != (2, 101):
+            problems.append(f"wrapper of hf::{{x+1}}: after del hf the call gave {r_a!r} (2 expected), after hf::{{x+100}} it gave {r_b!r} (101 expected)")
+    except Exception as e:
+        problems.append(f"delete/redefine history raised {type(e).__name__}: {e}")
     # list arguments on both paths (current definition / original after the name is gone)
     k3 = KlongInterpreter()
     k3('s::{+/x}')
